@@ -48,6 +48,17 @@ def handleX (op : String) (args : List String) : Option String :=
     let x ← handle "chain" [a, sa]; let y ← handle "chain" [b, sb]
     some (x ++ " ; " ++ y)
   | "hchain", [_, _] => some "ok native"
+  -- part 3: `giant iota:SHAPE steps` / `giant8 …` (more than 2^20 / 2^24 elements, the array is built by the harness and never
+  -- written out) and `gcreate iota:SHAPE ndmin`: judged in place by the harness-native reference, which for these streams also
+  -- covers atleast / expand_dims / squeeze and Array::create and is validated against `chain` / `create` on EVERY smaller case
+  | "giant", [_, _] => some "ok native"
+  | "giant8", [_, _] => some "ok native"
+  | "giantw", [_, _] => some "ok native"
+  | "gcreate", [_, _] => some "ok native"
+  -- `wrap A steps` / `wrapcreate A shape ndmin`: targets whose product equals the count only modulo 2^64; the model's answer (the
+  -- product is a `Nat`, so they are refused); the harness accepts any refusal of the crate and no `ok`
+  | "wrap", [a, steps] => handle "chain" [a, steps]
+  | "wrapcreate", [a, sh, nd] => handle "create" [a, sh, nd]
   | "audit", [] => some "ok audit"
   | _, _ => handle op args
 
